@@ -12,6 +12,7 @@
     op probevec  <h|s> <qvec>                  => ok id:score32 … | err
     op probetxt  <h|s> <word>                  => ok id …          | err
     op probemeta <h|s> <key> <val>             => ok id …          | err
+    op probeex   <h|s> <key>                   => ok id …          | err   (Exists(key))
 
   text: words joined by '+'; meta: k=v pairs joined by ',', value "!" = unsupported type.
   Outcome mismatches and wrong observations are SPECFAIL: they are exactly what C06 states
@@ -32,6 +33,7 @@ structure St where
   s : Hybrid.State Vec String Meta
   seen : List Id
   lastAuto : Nat
+  broken : Bool := false     -- model and implementation disagreed on an outcome the model cannot follow
 
 def params (dim : Nat) (mk : MetricKind) : Params Vec Meta :=
   { vpre := fun v =>
@@ -68,11 +70,21 @@ def sortIds (l : List Nat) : List Nat := l.mergeSort (fun a b => decide (a ≤ b
 def doAdd (st : St) (id : Id) (d : Doc Vec String Meta) (implOk : Bool) (what : String) : St × String :=
   if (st.s.info id).isSome then (st, "UNSUPPORTED add-of-live-id") else
   let r := addInternal (params st.dim st.kind) st.s id d
-  let st' := { st with s := r.1, seen := if st.seen.contains id then st.seen else id :: st.seen }
+  let seen := if st.seen.contains id then st.seen else id :: st.seen
+  let st' := { st with s := r.1, seen }
   if r.2.isNone == implOk then (st', if implOk then "ok" else "ok rejected=1")
-  else (st', s!"SPECFAIL {what} model={if r.2.isNone then "ok" else "err"} impl={if implOk then "ok" else "err"}")
+  else if !implOk then
+    -- the implementation refused a write the model accepts (a validation the model does not
+    -- know): the correspondence is broken (DIFF), but what C06 says about a FAILED write still
+    -- applies and is judged — it must have left no trace, so the state stays as it was
+    ({ st with seen }, s!"DIFF {what} model=ok impl=err (judged from here on as a failed write: no trace allowed)")
+  else
+    -- the implementation accepted a write the model refuses: nothing C06 states is violated by
+    -- that alone, and the model cannot say what was stored — stop judging this history
+    ({ st with broken := true }, s!"DIFF {what} model=err impl=ok (rest of the history not judged)")
 
 def op (st : St) (toks : List String) : St × String :=
+  if st.broken then (st, "ok skipped=1") else
   let (pre, post) := splitOutcome toks
   match pre with
   | ["add", v, t, m] =>
@@ -155,6 +167,19 @@ def op (st : St) (toks : List String) : St × String :=
         else (st, s!"SPECFAIL probemeta[{via}] {k}={v} want={sortIds want} got={sortIds got}")
       | none => (st, "BADOP probemeta ids")
     | _ => (st, s!"SPECFAIL probemeta[{via}] failed: {post}")
+  | ["probeex", via, k] =>
+    if st.s.mdx.isNone then
+      (st, if post.head? == some "err" then "ok err" else "SPECFAIL metadata filter without metadata index must fail")
+    else
+    match post with
+    | "ok" :: ids =>
+      match ids.mapM String.toNat? with
+      | some got =>
+        let want := st.seen.filter fun id => (metaVisible st.s id).any fun m => m.any fun kv => kv.1 == k
+        if sortIds got == sortIds want then (st, s!"ok n={got.length}")
+        else (st, s!"SPECFAIL probeex[{via}] exists({k}) want={sortIds want} got={sortIds got}")
+      | none => (st, "BADOP probeex ids")
+    | _ => (st, s!"SPECFAIL probeex[{via}] failed: {post}")
   | _ => (st, "BADOP unknown")
 
 def handler : Handler := { name := "atomic", σ := St, init := init, op := op }
